@@ -105,6 +105,9 @@ class Recorder:
         self.with_conf = True
         self.budget: Optional[int] = None  # max log length before Budget is raised
         self.clock: Optional[Callable[[], float]] = None
+        # async engine only: every marker action is a coroutine that logs and then yields to the event loop once, so
+        # anything the engine wrongly runs concurrently (or lets the run loop do in between) gets the chance to interleave
+        self.yielding = False
 
     # ---- user code stubs -------------------------------------------------
     def marker(self, name: str) -> Callable[..., None]:
@@ -122,6 +125,15 @@ class Recorder:
                 self.fault("action", name)
 
         _marker.__name__ = "marker_" + name.replace(":", "_").replace(".", "_")
+        if self.yielding:
+            import asyncio
+
+            async def _amarker(interp: Any, ctx: Any, event: Any, action_def: Any) -> None:
+                _marker(interp, ctx, event, action_def)
+                await asyncio.sleep(0)
+
+            _amarker.__name__ = _marker.__name__
+            return _amarker
         return _marker
 
     def guard(self, name: str) -> Callable[..., bool]:
